@@ -76,9 +76,9 @@ theorem insertIdx_perm (D : Dendro α) (t : Nat) (l : List Nat) : (insertIdx D t
     simp only [insertIdx]
     split
     · split
-      · exact List.Perm.refl _
       · exact (List.Perm.cons u ih).trans (List.Perm.swap t u us)
-    · exact (List.Perm.cons u ih).trans (List.Perm.swap t u us)
+      · exact List.Perm.refl _
+    · exact List.Perm.refl _
 
 theorem lexsortIdx_perm (D : Dendro α) : (lexsortIdx D).Perm (List.range D.length) := by
   unfold lexsortIdx
